@@ -11,6 +11,7 @@
 (*   b  excel_to_date_time_object(s) as <<y, m, d, h, mi, s>>              *)
 (*   t  the displayed text of a cell holding s (only if the event's fmt)   *)
 (*   o  "ok", or "panic" / "unrep" / "unparsed" (then the rest is filler)  *)
+(* Events "disp" carry a number format and items c, s, t, o only.          *)
 (* Event headers say what the generator meant to enumerate; that the items *)
 (* are exactly that enumeration is checked here first (kind "gen").        *)
 (***************************************************************************)
@@ -49,8 +50,14 @@ SecsGenOk(e) ==
   /\ e.from >= 0 /\ e.items # <<>> /\ e.from + Len(e.items) <= 86400
   /\ \A j \in DOMAIN e.items : e.items[j].c = <<e.y, e.m, e.d>> \o HMS(e.from + j - 1)
 
+DispGenOk(e) ==
+  /\ e.format \in DisplayFormats
+  /\ e.items # <<>>
+  /\ \A j \in DOMAIN e.items : ValidCivil(e.items[j].c)
+
 GenOk(e) == CASE e.a = "days" -> DaysGenOk(e)
               [] e.a = "secs" -> SecsGenOk(e)
+              [] e.a = "disp" -> DispGenOk(e)
               [] OTHER -> FALSE
 
 ----------------------------------------------------------------------------
@@ -77,7 +84,23 @@ Rising(items, j) == \/ items[j].o # "ok" \/ items[j + 1].o # "ok"
 Report(kind, j, detail) == /\ PrintT("DETAIL " \o ToString(l) \o " " \o ToString(detail))
                            /\ Mismatch(l, <<kind, j>>)
 
-Judge(e) ==
+(* "disp": a cell holding the serial of c (s = convert_date(c), checked to be that serial) under  *)
+(* the number format e.format shows the calendar date of c - and hour:minute where the format    *)
+(* has them - whatever the seconds are                                                          *)
+DispItemOk(it, f) ==
+  /\ it.o = "ok"
+  /\ SerialOk(it.s, SerialDay(it.c), SodOf(it.c))
+  /\ it.t = DisplayAs(f, it.c, TimeOf(it.c))
+
+JudgeDisp(e) ==
+  LET bad == {j \in DOMAIN e.items : ~DispItemOk(e.items[j], e.format)}
+  IN  IF bad = {} THEN TRUE
+      ELSE LET it == e.items[MinOf(bad)]
+           IN  Report("impl display", MinOf(bad),
+                      [format |-> e.format, observed |-> it, expected_day |-> SerialDay(it.c),
+                       display |-> DisplayAs(e.format, it.c, TimeOf(it.c)), bad_items_in_batch |-> Cardinality(bad)])
+
+JudgeConv(e) ==
   IF /\ \A j \in DOMAIN e.items : ItemOk(e.items[j], e.fmt)
      /\ \A j \in 1..(Len(e.items) - 1) : Rising(e.items, j)
   THEN TRUE
@@ -97,7 +120,7 @@ TraceInit == l = 1 /\ clk = Start(FirstYear)
 TraceNext == /\ l <= Len(Rec)
              /\ l' = l + 1
              /\ IF Ev.a = "Fatal" THEN Mismatch(l, <<"impl fatal", Ev.outcome>>)
-                ELSE IF GenOk(Ev) THEN Judge(Ev) ELSE Mismatch(l, <<"gen", Ev.case>>)
+                ELSE IF GenOk(Ev) THEN (IF Ev.a = "disp" THEN JudgeDisp(Ev) ELSE JudgeConv(Ev)) ELSE Mismatch(l, <<"gen", Ev.case>>)
              /\ UNCHANGED clk
 TraceSpec == TraceInit /\ [][TraceNext]_tvars
 =============================================================================
